@@ -466,4 +466,132 @@ theorem scan_number_int (doC : Bool) (sg : Cps) (d : Nat) (ds stop : Cps) (hsg :
   · rw [reNUMBER_eq]; exact hfirst
   · simp [identContinue]
 
+/-! ## PERCENTAGE and DIMENSION with sign and fraction -/
+
+/-- the digits of a number: an integer, or digits (possibly none) `.` digits -/
+inductive NumBody where
+  | int (d : Nat) (ds : Cps)
+  | frac (ip : Cps) (d : Nat) (ds : Cps)
+deriving Repr, BEq, DecidableEq
+
+def NumBody.text : NumBody → Cps
+  | .int d ds => d :: ds
+  | .frac ip d ds => ip ++ 46 :: d :: ds
+
+def NumBody.WF : NumBody → Prop
+  | .int d ds => ∀ c ∈ d :: ds, isDigit c = true
+  | .frac ip d ds => (∀ c ∈ ip, isDigit c = true) ∧ ∀ c ∈ d :: ds, isDigit c = true
+
+instance numBodyWFDecidable (b : NumBody) : Decidable b.WF := by
+  cases b <;> simp only [NumBody.WF] <;> infer_instance
+
+theorem isDigit_dotDigit (x : Nat) (hx : isDigit x = true) : inR dotDigit x = true := by
+  simp only [isDigit, Bool.and_eq_true, decide_eq_true_eq] at hx
+  simp [inR, dotDigit]; omega
+
+theorem numBody_chars (b : NumBody) (h : b.WF) :
+    (∀ x ∈ b.text, inR dotDigit x = true) ∧ ∃ c0 b', b.text = c0 :: b' ∧ inR dotDigit c0 = true := by
+  cases b with
+  | int d ds =>
+    exact ⟨fun x hx => isDigit_dotDigit x (h x hx), d, ds, rfl, isDigit_dotDigit d (h d (by simp))⟩
+  | frac ip d ds =>
+    obtain ⟨hip, hd⟩ := h
+    refine ⟨?_, ?_⟩
+    · intro x hx
+      simp only [NumBody.text, List.mem_append, List.mem_cons] at hx
+      rcases hx with hx | rfl | rfl | hx
+      · exact isDigit_dotDigit x (hip x hx)
+      · decide
+      · exact isDigit_dotDigit _ (hd _ (by simp))
+      · exact isDigit_dotDigit x (hd x (List.mem_cons_of_mem _ hx))
+    · cases ip with
+      | nil => exact ⟨46, d :: ds, rfl, by decide⟩
+      | cons c t => exact ⟨c, t ++ 46 :: d :: ds, rfl, isDigit_dotDigit c (hip c (by simp))⟩
+
+theorem numRe_first_body (sg : Cps) (b : NumBody) (stop : Cps) {cs : List (Nat × Nat)} (hsg : IsSign sg) (hb : b.WF)
+    (hs : NumStop cs stop) : numRe.first (sg ++ (b.text ++ stop)) = some (sg.length + b.text.length) := by
+  cases b with
+  | int d ds => exact numRe_first_int sg d ds stop hsg hb hs
+  | frac ip d ds =>
+    have hnd : HeadIn (fun c => isDigit c = false) stop :=
+      headIn_mono hs.head (fun c hc => by
+        have := clsFails_sound false _ cs c hs.nodigit hc
+        rw [inCls_digit] at this; exact this)
+    have := numRe_first_frac sg ip d ds stop hsg hb.1 hb.2 hnd
+    simp only [NumBody.text, List.length_append, List.length_cons, List.append_assoc, List.cons_append] at this ⊢
+    rw [this]; congr 1; omega
+
+/-- **PERCENTAGE class with sign and fraction**: a number (optional sign, integer or fraction) and `%`, whatever
+follows -/
+theorem scan_percentage_gen (doC : Bool) (sg : Cps) (b : NumBody) (rest : Cps) (hsg : IsSign sg) (hb : b.WF) :
+    scan false doC (sg ++ (b.text ++ 37 :: rest)) productions =
+      .hit "PERCENTAGE" (sg.length + b.text.length + 1) := by
+  obtain ⟨hchars, c0, b', hb0, hc0⟩ := numBody_chars b hb
+  have hstop : HeadIn (fun c => inR [(37, 37)] c = true) (37 :: rest) := headIn_cons (by decide)
+  have hns : NumStop [(37, 37)] (37 :: rest) := ⟨hstop, by decide, by decide⟩
+  have hsplit : productions = productions.take 3 ++ (("IDENT", reIDENT) :: ("FUNCTION", reFUNCTION) ::
+      ("DIMENSION", reDIMENSION) :: ("PERCENTAGE", rePERCENTAGE) :: productions.drop 7) := by decide
+  obtain ⟨hl1, hsgc⟩ := isSign_len sg hsg
+  obtain ⟨h0, t0, hs0, hh0⟩ : ∃ h0 t0, sg ++ (b.text ++ 37 :: rest) = h0 :: t0 ∧ inR numChars h0 = true := by
+    rw [hb0]
+    cases sg with
+    | nil => exact ⟨c0, b' ++ 37 :: rest, rfl, dotDigit_numChars c0 hc0⟩
+    | cons a r => exact ⟨a, r ++ (c0 :: b' ++ 37 :: rest), rfl, hsgc a (by simp)⟩
+  have hI : reIDENT.ms (sg ++ (b.text ++ 37 :: rest)) = [] := by
+    rw [reIDENT_eq]; exact dash_then_nil _ sg _ _ hsg c0 b' hb0 hc0 (by decide) (by decide)
+  have hF : reFUNCTION.ms (sg ++ (b.text ++ 37 :: rest)) = [] := by
+    rw [reFUNCTION_eq]; exact dash_then_nil _ sg _ _ hsg c0 b' hb0 hc0 (by decide) (by decide)
+  have hD : reDIMENSION.ms (sg ++ (b.text ++ 37 :: rest)) = [] := by
+    rw [reDIMENSION_eq]
+    exact numRe_then_nil2 reIDENT sg _ _ [(37, 37)] hsg hchars hstop (by decide) (by decide) (by decide)
+  have hP : rePERCENTAGE.first (sg ++ (b.text ++ 37 :: rest)) = some (sg.length + b.text.length + 1) := by
+    rw [rePERCENTAGE_eq]
+    apply first_seq_some (numRe_first_body sg b _ hsg hb hns)
+    have : (sg ++ (b.text ++ 37 :: rest)).drop (sg.length + b.text.length) = 37 :: rest := by
+      have := drop_length_append (sg ++ b.text) (37 :: rest)
+      simpa [List.append_assoc] using this
+    rw [this, first_cls_cons]; rfl
+  rw [hsplit]
+  rw [hs0] at hI hF hD hP ⊢
+  rw [scan_false_reject hh0 _ _ _ (by decide), scan_false_none (first_none_of_ms_nil hI),
+    scan_false_none (first_none_of_ms_nil hF), scan_false_none (first_none_of_ms_nil hD)]
+  apply scan_false_hit hP
+  simp [identContinue]
+
+/-- **DIMENSION class with sign and fraction**: a number (optional sign, integer or fraction) and a plain identifier
+as unit, followed by the end of the text or a space -/
+theorem scan_dimension_gen (doC : Bool) (sg : Cps) (b : NumBody) (c : Nat) (cs stop : Cps) (hsg : IsSign sg)
+    (hb : b.WF) (hc : inR identStart c = true) (hcs : ∀ x ∈ cs, inR identRest x = true) (hst : Sep stop) :
+    scan false doC (sg ++ (b.text ++ (c :: cs ++ stop))) productions =
+      .hit "DIMENSION" (sg.length + b.text.length + (c :: cs).length) := by
+  obtain ⟨hchars, c0, b', hb0, hc0⟩ := numBody_chars b hb
+  have hns : NumStop identStart (c :: cs ++ stop) := ⟨Or.inr ⟨c, cs ++ stop, rfl, hc⟩, by decide, by decide⟩
+  have hsplit : productions = productions.take 3 ++ (("IDENT", reIDENT) :: ("FUNCTION", reFUNCTION) ::
+      ("DIMENSION", reDIMENSION) :: productions.drop 6) := by decide
+  obtain ⟨hl1, hsgc⟩ := isSign_len sg hsg
+  obtain ⟨h0, t0, hs0, hh0⟩ : ∃ h0 t0, sg ++ (b.text ++ (c :: cs ++ stop)) = h0 :: t0 ∧ inR numChars h0 = true := by
+    rw [hb0]
+    cases sg with
+    | nil => exact ⟨c0, b' ++ (c :: cs ++ stop), rfl, dotDigit_numChars c0 hc0⟩
+    | cons a r => exact ⟨a, r ++ (c0 :: b' ++ (c :: cs ++ stop)), rfl, hsgc a (by simp)⟩
+  have hI : reIDENT.ms (sg ++ (b.text ++ (c :: cs ++ stop))) = [] := by
+    rw [reIDENT_eq]; exact dash_then_nil _ sg _ _ hsg c0 b' hb0 hc0 (by decide) (by decide)
+  have hF : reFUNCTION.ms (sg ++ (b.text ++ (c :: cs ++ stop))) = [] := by
+    rw [reFUNCTION_eq]; exact dash_then_nil _ sg _ _ hsg c0 b' hb0 hc0 (by decide) (by decide)
+  have hD : reDIMENSION.first (sg ++ (b.text ++ (c :: cs ++ stop))) =
+      some (sg.length + b.text.length + (c :: cs).length) := by
+    rw [reDIMENSION_eq]
+    apply first_seq_some (numRe_first_body sg b _ hsg hb hns)
+    have : (sg ++ (b.text ++ (c :: cs ++ stop))).drop (sg.length + b.text.length) = c :: cs ++ stop := by
+      have := drop_length_append (sg ++ b.text) (c :: cs ++ stop)
+      simpa [List.append_assoc] using this
+    rw [this]
+    exact ident_first c cs stop hc hcs hst
+  rw [hsplit]
+  rw [hs0] at hI hF hD ⊢
+  rw [scan_false_reject hh0 _ _ _ (by decide), scan_false_none (first_none_of_ms_nil hI),
+    scan_false_none (first_none_of_ms_nil hF)]
+  apply scan_false_hit hD
+  simp [identContinue]
+
 end CssVerif.Tok
